@@ -458,6 +458,42 @@ func c15PrivateCaches(c *mon.Ctx) {
 	}
 }
 
+// c15IdleExpiry (thorough tier, or VERIF_C15_IDLE=1): names injected into the process-wide caches have no expiry. An
+// event with an injected id is resolved, the process then leaves the caches alone for longer than their one-minute
+// expiration, and an equal event is resolved again: same names. (Runs last in its phase: any other look-up of the
+// same id during the pause would refresh an entry that a faulty cache had made mortal.)
+func c15IdleExpiry(c *mon.Ctx) {
+	if c.Tier != "thorough" && os.Getenv("VERIF_C15_IDLE") == "" {
+		return
+	}
+	resolve := func(seq int) string {
+		m, err := auparse.ParseLogLine(fmt.Sprintf("type=USER_LOGIN msg=audit(1500000000.800:%d): pid=1 uid=100014 auid=100014 ses=5 msg='op=login id=100014 exe=\"/usr/sbin/sshd\" hostname=h addr=192.0.2.9 terminal=ssh res=success'", seq))
+		if err != nil {
+			return "parse error"
+		}
+		e, err := aucoalesce.CoalesceMessages([]*auparse.AuditMessage{m})
+		if err != nil {
+			return "coalesce error"
+		}
+		aucoalesce.ResolveIDs(e)
+		b, _ := json.Marshal(map[string]any{"actor": e.Summary.Actor, "names": e.User.Names})
+		return string(b)
+	}
+	first := resolve(30001)
+	second := resolve(30002) // a hit
+	time.Sleep(63 * time.Second)
+	third := resolve(30003)
+	c.Add("evaluations", 1)
+	c.Add("idle_expiry_rounds", 1)
+	if !strings.Contains(first, "verif-u") {
+		c.Note("idle expiry: the injected account does not resolve at all: %s", first)
+		return
+	}
+	if second != first || third != first {
+		c.Violation("resolve-depends-on-history", fmt.Sprintf("an event with an id injected by HardcodeUsers resolves differently after the caches were left alone for 63 s (their expiration is one minute; injected names have none): first %s, again at once %s, after the pause %s", first, second, third), &c15Case{Ops: []string{"idle expiry"}})
+	}
+}
+
 // c15SameIDStorm: several goroutines resolve THE SAME id, not yet cached, at the same moment (fresh caches per
 // round, real accounts of this machine read from /etc/passwd and /etc/group, so that the look-up behind the cache
 // really runs): every one of them must get what a single look-up on a fresh cache gives.
@@ -630,7 +666,7 @@ func c15Concurrent(c *mon.Ctx) {
 func init() {
 	register(&mon.CheckSpec{
 		ID: "C15", Level: "exploration",
-		Rule: "cases = (first, on the cold process) for 21 file-related syscalls an event with four PATH records coalesced before and after an event of the same syscall with one or two PATH records: equal results; then a cross-process order probe: a fixed list of 39 events (one per candidate of every record type with several conditional normalisations - SELinux and AppArmor AVC records, alone and inside SYSCALL groups -, file syscalls with 4/1/2 PATH records, user-space records of seven types) is coalesced in forward order in this process and in reverse, rotated-by-one, rotated-by-half and forward order by four FRESH processes (`vcheck probe c15-order`): every event's outcome must be the same whatever the process saw before it; then seeded operation histories over a pool of 6-12 message groups (generated SYSCALL groups and single records with unique values, compound events that share one first record type - every named type in turn - with different syscalls, the repo's 47 recorded events, groups of hostile mutated text): CoalesceMessages(i), the same again (and four more times at the end of the history; some groups carry two SOCKADDR records of different families), ResolveIDs(e_j) through the global caches (names injected with HardcodeUsers/Groups for determinism), and a re-check of EVERY event returned so far after every operation. Deep copies of Data()/Tags()/ToMapStr() of every input message taken before its first use must equal the values afterwards; a repeated coalesce must give an equal event (JSON + sorted multiset of warning texts); every retained event must equal its own snapshot at every later step. After the histories, events whose ids carry names that never expire (root, injected names) are coalesced and resolved again after every few thousand unrelated ids went through the global caches: the result must not change. A second phase under the race detector coalesces and resolves different groups (incl. EXECVE records with 1..N arguments in ascending order) from 16 goroutines - the FIRST round on the cold process, before anything was coalesced sequentially, so lazily built global state is built by racing goroutines - and compares with a sequential reference computed afterwards (which must itself be stable); before that, the same-id storm: eight goroutines resolve the same not-yet-cached uid / gid of a real account on fresh caches at the same moment (150 / 6 000 rounds), each must get what a single look-up gives. Also: 17 record types x 4 variants resolved with ResolveIDsFromCaches through fresh private caches must not show ids / names that only the process-wide caches know. distinct_nontrivial = distinct histories (by pool text and op list) that contain a repeated coalesce or a ResolveIDs while other events are retained.",
+		Rule: "cases = (first, on the cold process) for 21 file-related syscalls an event with four PATH records coalesced before and after an event of the same syscall with one or two PATH records: equal results; then a cross-process order probe: a fixed list of 39 events (one per candidate of every record type with several conditional normalisations - SELinux and AppArmor AVC records, alone and inside SYSCALL groups -, file syscalls with 4/1/2 PATH records, user-space records of seven types) is coalesced in forward order in this process and in reverse, rotated-by-one, rotated-by-half and forward order by four FRESH processes (`vcheck probe c15-order`): every event's outcome must be the same whatever the process saw before it; then seeded operation histories over a pool of 6-12 message groups (generated SYSCALL groups and single records with unique values, compound events that share one first record type - every named type in turn - with different syscalls, the repo's 47 recorded events, groups of hostile mutated text): CoalesceMessages(i), the same again (and four more times at the end of the history; some groups carry two SOCKADDR records of different families), ResolveIDs(e_j) through the global caches (names injected with HardcodeUsers/Groups for determinism), and a re-check of EVERY event returned so far after every operation. Deep copies of Data()/Tags()/ToMapStr() of every input message taken before its first use must equal the values afterwards; a repeated coalesce must give an equal event (JSON + sorted multiset of warning texts); every retained event must equal its own snapshot at every later step. After the histories, events whose ids carry names that never expire (root, injected names) are coalesced and resolved again after every few thousand unrelated ids went through the global caches: the result must not change. A second phase under the race detector coalesces and resolves different groups (incl. EXECVE records with 1..N arguments in ascending order) from 16 goroutines - the FIRST round on the cold process, before anything was coalesced sequentially, so lazily built global state is built by racing goroutines - and compares with a sequential reference computed afterwards (which must itself be stable); before that, the same-id storm: eight goroutines resolve the same not-yet-cached uid / gid of a real account on fresh caches at the same moment (150 / 6 000 rounds), each must get what a single look-up gives. Also: 17 record types x 4 variants resolved with ResolveIDsFromCaches through fresh private caches must not show ids / names that only the process-wide caches know. Thorough tier only: an event with an injected id resolves to the same names after the caches were left alone for 63 s. distinct_nontrivial = distinct histories (by pool text and op list) that contain a repeated coalesce or a ResolveIDs while other events are retained.",
 		Assumptions: []string{
 			"the ORDER of Event.Warnings is not asserted (they are produced while ranging over maps); warnings are compared as a sorted multiset",
 			"ResolveIDs may change the event it is given; all other retained events and all input messages must stay equal",
@@ -669,6 +705,7 @@ func init() {
 				}
 			})
 			c15ResolveStability(c)
+			c15IdleExpiry(c)
 			c.Require("repeated_coalesce_calls", 100)
 			c.Require("resolve_calls", 100)
 			c.Require("rechecks", 1000)
